@@ -53,6 +53,8 @@ type World struct {
 	Behav     map[string]*NodeBehaviour
 	Coop      bool // cooperative kubelet: ignore hostile knobs
 	nestSteps []string
+	// ActsAfterFailedRead: see observeActsAfterFailedRead
+	ActsAfterFailedRead []string
 	// MaxLivePerNode / MaxLiveWitness: see observeLivePods
 	MaxLivePerNode int
 	MaxLiveWitness string
@@ -148,12 +150,36 @@ func (w *World) Reconcile(ctl, ns, name string) kit.Outcome {
 	w.tracef("reconcile %s %s/%s -> res=%s err=%v panic=%q calls=%d", ctl, ns, name, out.Inv.ResultStr, out.Err, out.Panic, len(out.Inv.Calls))
 	w.Mon.OnInvocation(out)
 	w.observeLivePods()
+	w.observeActsAfterFailedRead(out.Inv)
 	if out.Inv.Dead {
 		// process stop: every reconciler instance is discarded, in-memory state is lost
 		w.Ctl.Rebuild()
 		w.tracef("*** controller process restarted (in-memory state lost)")
 	}
 	return out
+}
+
+// observeActsAfterFailedRead: the monitors judge a reconcile against what it read; when a read was
+// refused (injected rejection or lost answer) they have nothing to judge against. A reconcile that
+// goes on to create or delete pods or replica sets after such a read is recorded here (and is a
+// C11 safety violation: see C11.acted-after-failed-read).
+func (w *World) observeActsAfterFailedRead(inv *simapi.Invocation) {
+	failed := ""
+	for _, c := range inv.Calls {
+		if !c.IsWrite() {
+			// (the canary-label clean-up listing is best effort: its failure is logged and the sync goes on)
+			if failed == "" && (c.Fault == simapi.Reject || c.Fault == simapi.LostReply) && !strings.Contains(c.Selector, v1.ExtendedDaemonSetReplicaSetCanaryLabelKey) {
+				failed = c.Verb + " " + c.Kind
+			}
+			continue
+		}
+		if failed != "" && c.Applied() && (c.Verb == "create" || c.Verb == "delete") && (c.Kind == simapi.KindPod || c.Kind == simapi.KindERS) {
+			w.ActsAfterFailedRead = append(w.ActsAfterFailedRead, fmt.Sprintf("%s reconcile of %s/%s: %s %s %s after failed %s", inv.Controller, inv.NS, inv.Name, c.Verb, c.Kind, c.Name, failed))
+			w.Ctx.Count("sim.acts-after-failed-read")
+			w.Ctx.Count("sim.acts-after-failed-read:" + inv.Controller + ":" + failed + " -> " + c.Verb + " " + c.Kind)
+			return
+		}
+	}
 }
 
 // observeLivePods tracks, after every reconcile, the largest number of live daemon pods (not
